@@ -774,3 +774,5 @@ M('seed10-C17-writeback-by-position', ['C17'], UT, "            for topic_xform 
 M('C16-facet-builder-filters-list-elements', ['C16'], LN, "                data[k] = [float(x) if isinstance(x, (int, float)) else str(x) for x in v]", "                data[k] = [float(x) if isinstance(x, (int, float)) else str(x) for x in v if x]", ['C16.R11'])
 M('rolllog-D79-shape-partial-record-returned', ['C13'], RL, "                if mode != 'bin' and data and not data.endswith(b'\\n'):\n                    read_file.seek((cut := data.rfind(b'\\n') + 1) - len(data), 1)\n\n                    data = data[:cut]\n\n", "", ['C13.R15'])
 M('rolllog-tail-dropped-but-not-put-back', ['C13'], RL, "                    read_file.seek((cut := data.rfind(b'\\n') + 1) - len(data), 1)\n\n                    data = data[:cut]\n", "                    data = data[:data.rfind(b'\\n') + 1]\n", ['C13.R15'])
+M('cli-D78-shape-http-output-port-not-reserved', ['C12'], CLI, "        for output in outputs:\n            if isinstance(output, str) and not is_mq_addr(output) and (m := RE_URL_PORT.match(output)):  # Webvis' 'http://0.0.0.0:5550'\n                max_port = max(max_port, int(m.group(1)))\n\n", "", ['C12.R13'])
+M('cli-D78-shape-port-option-not-reserved', ['C12'], CLI, "        if isinstance(port := config.get(\"port\"), int) and not isinstance(port, bool):  # the http server port of Webvis / REST given as an option\n            max_port = max(max_port, port)\n", "", ['C12.R13'])
